@@ -517,7 +517,7 @@ func c03(e *Env) {
 	r.Assume("token positions come from the pinned schema and the generated value; layout differences other than byte order are C02's business and are not flagged here")
 	// ---- (a) primitives
 	if e.Only == "" || e.Only == "primitives" {
-		c := &primCtx{e: e, rng: gen.NewRng(e.Seed, "C03", "prim"), n: e.N(600, 15000), pairs: map[string]int{}}
+		c := &primCtx{e: e, rng: gen.NewRng(e.Seed, "C03", "prim"), n: e.N(600, 40000), pairs: map[string]int{}}
 		c.g = &gen.Gen{S: e.S, C: e.C, R: c.rng, O: &gen.Opts{}}
 		c.guard("primAllPrefixesBasic[int8]", func() { primAllPrefixesBasic[int8](c) })
 		c.guard("primAllPrefixesBasic[int16]", func() { primAllPrefixesBasic[int16](c) })
@@ -553,7 +553,7 @@ func c03(e *Env) {
 	}
 	// ---- (b) messages
 	types := e.Types()
-	n := e.N(300, 10000)
+	n := e.N(300, 40000)
 	cat := newFeatAcc()
 	e.Par(len(types), func(i int) {
 		t := types[i]
